@@ -4,19 +4,23 @@
 package main
 
 import (
+	"bytes"
 	"encoding/json"
 	"flag"
 	"fmt"
+	"io"
 	"math/rand"
 	"os"
 	"path"
 	"sort"
 	"strings"
+	"sync"
 
 	"github.com/pingcap/log"
 	"github.com/tikv/pd/pkg/btree"
 	"github.com/tikv/pd/server/core"
 	"go.uber.org/zap"
+	"go.uber.org/zap/zapcore"
 
 	"pdverif/internal/c07x"
 	"pdverif/internal/coqfmt"
@@ -326,6 +330,9 @@ type rop struct {
 	Fam    string       `json:"fam,omitempty"`
 	Seed   int64        `json:"seed,omitempty"`
 	Ranges [][2]string  `json:"ranges,omitempty"`
+	Re     bool         `json:"re,omitempty"` // scan: run through ScanRangeWithIterator; every callback also looks the key Inner up (re-entrant reader)
+	Inner  string       `json:"inner,omitempty"`
+	Stash  bool         `json:"stashed,omitempty"` // search / prev: the answer is the one obtained inside the iterator of the preceding scan
 	draws  []int
 }
 
@@ -369,8 +376,9 @@ func (o rop) coq() string {
 
 type world struct {
 	ri        *core.RegionsInfo
-	malformed bool   // the case belongs to the malformed stream (a nil dereference in SetRegion / RemoveRegion is modelled)
-	panic     string // "<function>: <message>" of a panic of the real code that is not such an observation
+	stash     []string // answers of the lookups made inside the iterator of the last re-entrant scan: (search, prev) per callback
+	malformed bool     // the case belongs to the malformed stream (a nil dereference in SetRegion / RemoveRegion is modelled)
+	panic     string   // "<function>: <message>" of a panic of the real code that is not such an observation
 }
 
 func randFam(ri *core.RegionsInfo, fam string, store uint64, ranges []core.KeyRange) *core.RegionInfo {
@@ -403,7 +411,15 @@ func (w *world) exec(o *rop) (obs string) {
 	ri := w.ri
 	switch o.K {
 	case "set":
-		ov := ri.SetRegion(o.R.Info())
+		info := o.R.Info()
+		ov := ri.SetRegion(info)
+		// read-only observers: the log formatting helpers, on the region that is now cached and on every cached region
+		_ = core.RegionToHexMeta(info.GetMeta()).String()
+		_ = core.RegionsToHexMeta(ri.GetMetaRegions()).String()
+		for _, x := range ri.GetRegions() {
+			_ = core.RegionToHexMeta(x.GetMeta()).String()
+			_ = x.GetMeta().String()
+		}
 		s, ok := c07x.Refs(ov)
 		if !ok {
 			return "RoBad \"nil-overlap\""
@@ -416,11 +432,48 @@ func (w *world) exec(o *rop) (obs string) {
 		return "RoUnit"
 	case "get":
 		return "RoReg " + c07x.ORef(ri.GetRegion(o.ID))
-	case "search":
-		return "RoReg " + c07x.ORef(ri.SearchRegion([]byte(o.S)))
-	case "prev":
+	case "search", "prev":
+		if o.Stash && len(w.stash) > 0 {
+			// the lookups made from inside the scan iterator; the tree did not change, so all callbacks must agree
+			off := 0
+			if o.K == "prev" {
+				off = 1
+			}
+			for i := off; i < len(w.stash); i += 2 {
+				if w.stash[i] != w.stash[off] {
+					return "RoBad \"re-entrant-lookups-disagree\""
+				}
+			}
+			return w.stash[off]
+		}
+		if o.K == "search" {
+			return "RoReg " + c07x.ORef(ri.SearchRegion([]byte(o.S)))
+		}
 		return "RoReg " + c07x.ORef(ri.SearchPrevRegion([]byte(o.S)))
 	case "scan":
+		if o.Re {
+			// ScanRange written over ScanRangeWithIterator, with a lookup by key issued from inside the iterator
+			var res []*core.RegionInfo
+			w.stash = w.stash[:0]
+			end := []byte(o.E)
+			ri.ScanRangeWithIterator([]byte(o.S), func(region *core.RegionInfo) bool {
+				if len(end) > 0 && bytes.Compare(region.GetStartKey(), end) >= 0 {
+					return false
+				}
+				if o.Lim > 0 && len(res) >= o.Lim {
+					return false
+				}
+				w.stash = append(w.stash, "RoReg "+c07x.ORef(ri.SearchRegion([]byte(o.Inner))), "RoReg "+c07x.ORef(ri.SearchPrevRegion([]byte(o.Inner))))
+				res = append(res, ri.GetRegion(region.GetID()))
+				return true
+			})
+			s, ok := c07x.Refs(res)
+			if !ok {
+				return "RoBad \"scan-nil\""
+			}
+			return "RoRegs " + s
+		}
+		w.stash = w.stash[:0]
 		s, ok := c07x.Refs(ri.ScanRange([]byte(o.S), []byte(o.E), o.Lim))
 		if !ok {
 			return "RoBad \"scan-nil\""
@@ -480,11 +533,12 @@ func (w *world) exec(o *rop) (obs string) {
 }
 
 type riCase struct {
-	Kind  string   `json:"kind"`
-	Ops   []rop    `json:"ops"`
-	Obs   []string `json:"obs"`
-	tags  map[string]int
-	panic string
+	Kind       string   `json:"kind"`
+	Ops        []rop    `json:"ops"`
+	Obs        []string `json:"obs"`
+	tags       map[string]int
+	panic      string
+	concurrent string // first answer of a concurrent reader that differs from the sequential answer
 }
 
 func (c riCase) coq() string {
@@ -619,6 +673,15 @@ func (g *riGen) queries(full bool) {
 		s, e := g.rangeKeys()
 		g.step(rop{K: "scan", S: s, E: e, Lim: []int{0, -1, 1, 2, 3, 1000}[r.Intn(6)]})
 	}
+	// re-entrant reader: a scan through ScanRangeWithIterator whose iterator looks a key up; the answers of those lookups
+	// are recorded as the two operations that follow
+	for i := 0; i < 2; i++ {
+		sk, ek := g.rangeKeys()
+		in := g.probe()
+		g.step(rop{K: "scan", S: sk, E: ek, Lim: []int{0, 2, 1000}[r.Intn(3)], Re: true, Inner: in})
+		g.step(rop{K: "search", S: in, Stash: true})
+		g.step(rop{K: "prev", S: in, Stash: true})
+	}
 	for st := 1; st <= g.stores+1; st++ {
 		if full || r.Pct(50) {
 			g.step(rop{K: "counts", Store: uint64(st)})
@@ -656,6 +719,88 @@ func (g *riGen) queries(full bool) {
 }
 
 func (g *riGen) nextStamp() int64 { g.stamp++; return g.stamp }
+
+// readQuery answers a read-only lookup without touching the world's journal / stash (used by concurrent readers)
+func readQuery(ri *core.RegionsInfo, o rop) (obs string) {
+	defer func() {
+		if e := recover(); e != nil {
+			obs = fmt.Sprint("panic: ", e)
+		}
+	}()
+	switch o.K {
+	case "search":
+		return "RoReg " + c07x.ORef(ri.SearchRegion([]byte(o.S)))
+	case "prev":
+		return "RoReg " + c07x.ORef(ri.SearchPrevRegion([]byte(o.S)))
+	case "scan":
+		s, _ := c07x.Refs(ri.ScanRange([]byte(o.S), []byte(o.E), o.Lim))
+		return "RoRegs " + s
+	case "storeregions":
+		s, _ := c07x.Refs(ri.GetStoreRegions(o.Store))
+		return "RoRegs " + s
+	case "get":
+		return "RoReg " + c07x.ORef(ri.GetRegion(o.ID))
+	}
+	return ""
+}
+
+// concurrentReaders: on the unchanged region set, the lookups that BasicCluster serves under its read lock are issued from
+// several goroutines at once; every answer must be the answer the same lookup gave sequentially (those sequential answers are
+// ordinary operations of the case and are compared with the model).  Returns a description of the first difference.
+func (g *riGen) concurrentReaders(rounds int) string {
+	if g.dead {
+		return ""
+	}
+	var qs []rop
+	for _, k := range g.a.Probes {
+		if len(qs) >= 24 {
+			break
+		}
+		qs = append(qs, rop{K: "search", S: k}, rop{K: "prev", S: k})
+	}
+	for i := 0; i < 6; i++ {
+		s, e := g.rangeKeys()
+		qs = append(qs, rop{K: "scan", S: s, E: e, Lim: []int{0, 3, 1000}[g.r.Intn(3)]})
+	}
+	for st := 1; st <= g.stores; st++ {
+		qs = append(qs, rop{K: "storeregions", Store: uint64(st)})
+	}
+	want := make([]string, len(qs))
+	for i, q := range qs {
+		want[i] = g.step(q)
+		if g.dead {
+			return ""
+		}
+	}
+	const readers = 4
+	diff := make(chan string, readers)
+	var wg sync.WaitGroup
+	for t := 0; t < readers; t++ {
+		wg.Add(1)
+		go func(t int) {
+			defer wg.Done()
+			for n := 0; n < rounds; n++ {
+				for j := range qs {
+					i := (j*(2*t+1) + n + t) % len(qs)
+					if got := readQuery(g.w.ri, qs[i]); got != want[i] {
+						select {
+						case diff <- fmt.Sprintf("%s concurrently answered %s, sequentially %s", qs[i].coq(), got, want[i]):
+						default:
+						}
+						return
+					}
+				}
+			}
+		}(t)
+	}
+	wg.Wait()
+	select {
+	case d := <-diff:
+		return d
+	default:
+		return ""
+	}
+}
 
 // structured case: a simulated cluster history whose heartbeats are put (in order, stale, repeated),
 // mixed with arbitrary well-formed overlapping puts and removals.
@@ -750,6 +895,11 @@ func genRI(r *rng.R, a c07x.Alphabet, nmut int, malformed bool) riCase {
 	for k, v := range sim.Hist {
 		c.tags[k] += v
 	}
+	// concurrent readers on the final, unchanged region set
+	if d := g.concurrentReaders(60); d != "" {
+		c.concurrent = d
+	}
+	c.tags["phase:concurrent-readers"]++
 	return c
 }
 
@@ -908,6 +1058,55 @@ func widePeersCase(seed uint64) riCase {
 	return c
 }
 
+// bigTreeReaders: a region tree with inner nodes (more regions than one btree node of degree 64 holds), then scans through
+// ScanRangeWithIterator whose iterator looks up a key far away (re-entrant reader: deterministic witness for read paths that
+// share state), ordinary lookups, and the concurrent readers.
+func bigTreeReaders(seed uint64) riCase {
+	c := riCase{Kind: "ri", tags: map[string]int{"directed:big-tree-readers": 1}}
+	r := rng.New(seed)
+	g := &riGen{r: r, a: c07x.Small(), w: &world{ri: core.NewRegionsInfo()}, c: &c, stores: 3, cached: map[uint64]c07x.Region{}}
+	n := 150 + r.Intn(60)
+	key := func(i int) string { return fmt.Sprintf("k%03d", i) }
+	for _, i := range r.Perm(n) {
+		if i%17 == 5 {
+			continue // key holes
+		}
+		id := uint64(i + 1)
+		x := c07x.Region{ID: id, Start: key(i), End: key(i + 1), Peers: []c07x.Peer{{ID: id*10 + 1, Store: 1}, {ID: id*10 + 2, Store: 2}, {ID: id*10 + 3, Store: 3}},
+			Leader: id*10 + uint64(1+i%3), Size: int64(1 + i%9), Ver: 1, ConfVer: 1, Term: 1, Stamp: g.nextStamp()}
+		g.step(rop{K: "set", R: &x})
+	}
+	g.step(rop{K: "global"})
+	for j := 0; j < 12; j++ {
+		a, b := r.Intn(n), r.Intn(n)
+		start := key(a)
+		switch j % 3 {
+		case 0:
+			start += "x" // inside a region
+		case 1:
+			start = key(17*r.Intn(n/17)+5) + "h" // inside a key hole: the scan starts from the search key itself
+		}
+		in := key(b) + "m"
+		g.step(rop{K: "scan", S: start, E: "", Lim: []int{0, 5, 40, 1000}[r.Intn(4)], Re: true, Inner: in})
+		g.step(rop{K: "search", S: in, Stash: true})
+		g.step(rop{K: "prev", S: in, Stash: true})
+		g.step(rop{K: "search", S: start})
+		g.step(rop{K: "prev", S: start})
+	}
+	for st := 1; st <= 3; st++ {
+		g.step(rop{K: "counts", Store: uint64(st)})
+	}
+	// concurrent readers over keys of this tree
+	g.a.Probes = nil
+	for j := 0; j < 12; j++ {
+		g.a.Probes = append(g.a.Probes, key(r.Intn(n))+"q")
+	}
+	if d := g.concurrentReaders(40); d != "" {
+		c.concurrent = d
+	}
+	return c
+}
+
 // ---------------------------------------------------------------------------------------------
 
 type anyCase struct {
@@ -935,7 +1134,9 @@ func main() {
 		return "RegionsInfo." + k
 	})
 	journal = c07x.OpenOpLog(*oplog)
-	log.ReplaceGlobals(zap.NewNop(), nil)
+	// debug level with a core that formats every field (output discarded): the lazily evaluated Stringers of the log lines
+	// inside the code under test (RegionToHexMeta ...) are really evaluated, as with log-level = "debug"
+	log.ReplaceGlobals(zap.New(zapcore.NewCore(zapcore.NewJSONEncoder(zap.NewProductionEncoderConfig()), zapcore.AddSync(io.Discard), zap.DebugLevel)), nil)
 
 	R := res.New("C07", *seed, *tier)
 	R.Rule = "(a) random insert/delete/query histories on real pkg/btree trees of degree 2,3,4,64 with rank sweeps (GetAt k / GetWithIndex for every k); " +
@@ -976,6 +1177,10 @@ func main() {
 		all = append(all, c)
 	}
 	emitRI := func(c riCase) {
+		if c.concurrent != "" {
+			R.Violate("C07:concurrent-lookup-differs-from-sequential", c.concurrent+" (4 readers on the unchanged region set built by the replayed operations)", map[string]interface{}{"kind": "ri", "ops": c.Ops})
+			R.Count("concurrent-lookup-differs")
+		}
 		if c.panic != "" {
 			fn := strings.SplitN(c.panic, ":", 2)[0]
 			R.Violate("C07:implementation-panicked:"+fn, c.panic+" (last operation of the replayed case)", map[string]interface{}{"kind": "ri", "ops": c.Ops})
@@ -1096,6 +1301,7 @@ func main() {
 			}
 			emitRI(c)
 		}
+		emitRI(bigTreeReaders(*seed))
 		emitRI(widePeersCase(*seed))
 		emitRI(widePeersCase(*seed + 1000))
 		{
